@@ -5,10 +5,10 @@ footer variants cannot drift apart. Output: the text between the GENERATED marke
 pkg/document/zz_contracts_verif_hf.go (usage: gen_hf_contracts.py <repo> rewrites the file in place)."""
 import sys, re
 
-HDR = dict(h='hdr', H='Header', O='Footer', T='HeaderFooterReference', prefix='header', kind='headerType',
+HDR = dict(o='ftr', h='hdr', H='Header', O='Footer', T='HeaderFooterReference', prefix='header', kind='headerType',
            rel='http://schemas.openxmlformats.org/officeDocument/2006/relationships/header',
            ct='application/vnd.openxmlformats-officedocument.wordprocessingml.header+xml', word='header')
-FTR = dict(h='ftr', H='Footer', O='Header', T='FooterReference', prefix='footer', kind='footerType',
+FTR = dict(o='hdr', h='ftr', H='Footer', O='Header', T='FooterReference', prefix='footer', kind='footerType',
            rel='http://schemas.openxmlformats.org/officeDocument/2006/relationships/footer',
            ct='application/vnd.openxmlformats-officedocument.wordprocessingml.footer+xml', word='footer')
 
@@ -98,6 +98,12 @@ TEMPLATE = r'''
 //@ ensures forall s *SectionProperties :: {s.%(H)sReferences} allocated(s) && !old(isFirstSect(d.Body.Elements, s)) ==> s.%(H)sReferences == old(s.%(H)sReferences)
 //@ ensures forall s *SectionProperties :: {s.XmlnsR} allocated(s) && !old(isFirstSect(d.Body.Elements, s)) ==> s.XmlnsR == old(s.XmlnsR)
 //@ ensures forall s *SectionProperties :: {s.XmlnsR} allocated(s) && old(s.XmlnsR) != "" ==> s.XmlnsR == old(s.XmlnsR)
+// canonical references (the invariant behind "each kind has exactly one, current definition"): every reference of a valid kind
+// resolves, in the document relationship list, to a relationship of the right type whose target is the part of THAT kind
+//@ ensures err == nil && old(noSect(d.Body.Elements)) ==> hdrCanon(%(ns)s.HeaderReferences, %(rels)s) && ftrCanon(%(ns)s.FooterReferences, %(rels)s)
+//@ ensures err == nil ==> forall s *SectionProperties :: {s.%(H)sReferences} allocated(s) && old(isFirstSect(d.Body.Elements, s)) && old(%(h)sNone(s.%(H)sReferences, string(%(kind)s))) && old(%(h)sCanon(s.%(H)sReferences, %(rels)s)) ==> %(h)sCanon(s.%(H)sReferences, %(rels)s)
+//@ ensures err == nil ==> forall s *SectionProperties, k int :: {s.%(H)sReferences[k]} allocated(s) && old(isFirstSect(d.Body.Elements, s)) && old(%(h)sFirstAt(s.%(H)sReferences, k, string(%(kind)s))) && old(%(h)sCanon(s.%(H)sReferences, %(rels)s)) ==> s.%(H)sReferences[k] == old(s.%(H)sReferences[k]) && %(h)sCanon(s.%(H)sReferences, %(rels)s)
+//@ ensures err == nil ==> forall s *SectionProperties :: {s.%(O)sReferences} allocated(s) && old(isFirstSect(d.Body.Elements, s)) && old(%(o)sCanon(s.%(O)sReferences, %(rels)s)) ==> %(o)sCanon(s.%(O)sReferences, %(rels)s)
 //@ ensures unchangedExcept("map:string:[]byte", "Relationships.Relationships", "Relationship.*", "ContentTypes.Overrides", "Override.*", "Body.Elements", "cell:any", "SectionProperties.XmlnsR", "SectionProperties.%(H)sReferences", "%(T)s.ID", "cell:*%(T)s")
 '''
 
